@@ -783,7 +783,9 @@ pub struct Report {
 }
 
 /// cause class of a failure, computed by the harness alone from features of the input and of the produced block
-fn cause(pool_priv: bool, pool_spends_old: bool, stale_work: bool, atr_payout: bool, validator_cap_multiplier_zero: bool) -> &'static str {
+fn cause(pool_priv: bool, pool_spends_old: bool, stale_work: (bool, bool), atr_payout: bool, validator_cap_multiplier_zero: bool) -> &'static str {
+    // (counter exceeds the pooled work, an earlier bundle of this node lost its pool in a failed Block::create)
+    let (stale_work, after_failed_create) = stale_work;
     if pool_priv {
         "privileged-tx-in-pool"
     } else if atr_payout && validator_cap_multiplier_zero {
@@ -792,8 +794,12 @@ fn cause(pool_priv: bool, pool_spends_old: bool, stale_work: bool, atr_payout: b
         "atr-payout-present"
     } else if pool_spends_old {
         "pool-spends-output-outside-window"
-    } else if stale_work {
+    } else if stale_work && after_failed_create {
         "pool-work-counter-exceeds-pool-work"
+    } else if stale_work {
+        // the listed finding needs a failed Block::create earlier in the history (the pool is drained, the counter stays);
+        // a counter that is stale WITHOUT that is a different failure
+        "pool-work-counter-exceeds-pool-work/no-failed-create-before"
     } else {
         "none"
     }
@@ -807,6 +813,8 @@ pub async fn run_scenario(sc: &Scenario, seed: u64, e: &mut Emit<'_>) -> Report 
     let genesis = f.make_genesis(&sc.issue).await;
     f.remember(&genesis);
     let mut w = World { nodes: [Node::new(KEY_A, cfg.clone()), Node::new(KEY_B, cfg.clone())], f, seen: vec![], ids: Ids::new() };
+    // history feature per node: an earlier bundle lost its pool in a failed Block::create (root of the listed stale counter)
+    let mut create_failed = [false, false];
     for n in w.nodes.iter_mut() {
         n.blockchain.social_stake_requirement = sc.stake;
         n.blockchain.social_stake_period = 2;
@@ -907,8 +915,8 @@ pub async fn run_scenario(sc: &Scenario, seed: u64, e: &mut Emit<'_>) -> Report 
         }
         // the mempool's routing-work counter claims more work than the pooled transactions carry
         let pool_work: Currency = pool_now.iter().map(|t| t.total_work_for_me).sum();
-        let stale_work = w.nodes[p].mempool.get_routing_work_available() > pool_work;
-        if stale_work {
+        let stale_work = (w.nodes[p].mempool.get_routing_work_available() > pool_work, create_failed[p]);
+        if stale_work.0 {
             (e.count)("round:pool-work-counter-exceeds-pool-work");
         }
         for t in &pool_now {
@@ -977,6 +985,9 @@ pub async fn run_scenario(sc: &Scenario, seed: u64, e: &mut Emit<'_>) -> Report 
                     (e.case)(&mk_op(&default_stx), "none");
                 }
                 (e.count)(if drained { "bundle:none-create-failed-pool-lost" } else { "bundle:none" });
+                if drained {
+                    create_failed[p] = true;
+                }
                 continue;
             }
             Ok(Some(b)) => b,
